@@ -299,6 +299,11 @@ def _log_posint(n):
     return r
 
 
+# every time log() cancels an exp() factor the cancelled atom is recorded here: algebraically harmless, numerically
+# the program took the logarithm of a quantity that underflows (a client that cares clears the list and inspects it)
+LOG_OF_EXP = []
+
+
 def _log_poly(p):
     """log of a polynomial (positive domain): split content and monomial factors"""
     if not p:
@@ -310,6 +315,7 @@ def _log_poly(p):
         r = _log_posint(c.numerator) - _log_posint(c.denominator)
         for a, e in m:
             if a[0] == "exp":
+                LOG_OF_EXP.append(a)
                 r = r + e * _ATOM_ARGS[a]
             elif a[0] == "sqrt":
                 r = r + Fraction(e, 2) * log(_ATOM_ARGS[a])
